@@ -732,3 +732,201 @@ func TestVerifSweeper(t *testing.T) {
 	}
 	of.Close()
 }
+
+// ---------------------------------------------------------------------------
+// Mass expiry against concurrent sightings, on the real ClientMap with its
+// real sweeper goroutine.  Per round: F filler clients and, created last, W
+// watched clients, all created inside one sweeper period so that they expire
+// in the same sweep.  Sentinels block on the oldest fillers' queues; the
+// moment the sweep closes one of them every watched client starts being seen
+// (SendQueue in a tight loop from its own goroutine) for a few dozen ms - i.e.
+// the sightings fall into the pass that is discarding thousands of records.
+// What is recorded (for spec/QueueConn/QueueConn_Trace.tla, which holds the
+// rule: a queue may be replaced only when the client's previous sighting
+// started a full timeout earlier) is, per watched client, its first touch,
+// every touch that returned a different queue together with the touch just
+// before it, and its last touch.  Nothing is judged here.
+//
+// Environment: VERIF_OUT (trace), VERIF_STRESS_MS, VERIF_STRESS_FILLERS,
+// VERIF_STRESS_WATCHED, VERIF_STRESS_ROUNDS.
+
+func TestVerifSweepStress(t *testing.T) {
+	outp := os.Getenv("VERIF_OUT")
+	if outp == "" {
+		t.Skip("VERIF_OUT not set")
+	}
+	geti := func(k string, d int) int {
+		if v, err := strconv.Atoi(os.Getenv(k)); err == nil && v > 0 {
+			return v
+		}
+		return d
+	}
+	ms, F, W, R := geti("VERIF_STRESS_MS", 1000), geti("VERIF_STRESS_FILLERS", 3000), geti("VERIF_STRESS_WATCHED", 16), geti("VERIF_STRESS_ROUNDS", 3)
+	T := time.Duration(ms) * time.Millisecond
+	t00 := time.Now()
+	us := func(x time.Time) int64 { return int64(x.Sub(t00) / time.Microsecond) }
+	type tev struct {
+		at int64
+		e  map[string]interface{}
+	}
+	var mu sync.Mutex
+	var evs []tev
+	type roundInfo struct {
+		Round      int     `json:"round"`
+		Valid      bool    `json:"valid"`
+		CreateMs   float64 `json:"create_ms"`
+		WindowUs   int64   `json:"sweep_window_us"`   // first sentinel closed .. last filler closed
+		Contended  int64   `json:"touches_in_window"` // sightings of watched clients that started inside the window
+		Touches    int64   `json:"touches"`
+		Replaced   int64   `json:"replacements"`
+		PanicClass string  `json:"panic,omitempty"`
+	}
+	infos := make([]roundInfo, R)
+	var wg sync.WaitGroup
+	for r := 0; r < R; r++ {
+		wg.Add(1)
+		go func(r int) {
+			defer wg.Done()
+			info := &infos[r]
+			info.Round = r
+			m := NewClientMap(T)
+			c0 := time.Now()
+			time.Sleep(T / 20) // the sweeper's clock starts a moment after ours: stay clear of its period boundary
+			fill := make([]chan []byte, F)
+			for i := range fill {
+				fill[i] = m.SendQueue(ClientID{byte(r), 0xf1, byte(i), byte(i >> 8), byte(i >> 16)})
+			}
+			type watched struct {
+				id    ClientID
+				q     chan []byte
+				start time.Time
+			}
+			ws := make([]watched, W)
+			for j := range ws {
+				ws[j].id = ClientID{byte(r), 0x77, byte(j)}
+				ws[j].start = time.Now()
+				ws[j].q = m.SendQueue(ws[j].id)
+				e := time.Now()
+				ws[j].q <- []byte{byte(j)}
+				mu.Lock()
+				evs = append(evs, tev{us(e), map[string]interface{}{"ev": "touch", "a": r*W + j, "t0": us(ws[j].start), "t1": us(e), "same": true}})
+				mu.Unlock()
+			}
+			// order the sends above before anything the sweeper does later (the last send is
+			// not followed by a SendQueue of this goroutine; without this edge the race
+			// detector rightly has no proof that the send precedes the eventual close)
+			m.lock.Lock()
+			m.lock.Unlock()
+			info.CreateMs = float64(time.Since(c0)) / 1e6
+			// everything must expire in one and the same sweep: created within one sweeper period, with room to spare
+			info.Valid = time.Since(c0) < T/2-T/8
+			start := make(chan struct{})
+			var once sync.Once
+			var sweepStart, sweepEnd int64
+			for _, k := range []int{0, 1, 2, 3} {
+				go func(q chan []byte) {
+					for range q {
+					}
+					once.Do(func() { atomic.StoreInt64(&sweepStart, us(time.Now())); close(start) })
+				}(fill[k%F])
+			}
+			go func(q chan []byte) {
+				for range q {
+				}
+				atomic.StoreInt64(&sweepEnd, us(time.Now()))
+			}(fill[F-1])
+			var rw sync.WaitGroup
+			for j := range ws {
+				rw.Add(1)
+				go func(j int) {
+					defer rw.Done()
+					defer func() {
+						if v := recover(); v != nil {
+							info.PanicClass = vqPanicClass(v)
+						}
+					}()
+					w := &ws[j]
+					a := r*W + j
+					if j >= W-4 {
+						// the clients created last are discarded last: their goroutines do not
+						// park but poll the oldest filler's queue, so that no wake-up latency
+						// stands between the beginning of the sweep and their first sighting
+						// (only from the earliest instant at which the expiring sweep can run)
+						time.Sleep(time.Until(c0.Add(T + T/20 - 2*time.Millisecond)))
+						deadline := time.Now().Add(3 * T)
+					spin:
+						for {
+							select {
+							case _, ok := <-fill[0]:
+								if !ok {
+									break spin
+								}
+							default:
+							}
+							if time.Now().After(deadline) {
+								return
+							}
+							runtime.Gosched()
+						}
+					} else {
+						select {
+						case <-start:
+						case <-time.After(3 * T):
+							return
+						}
+					}
+					stop := time.Now().Add(40 * time.Millisecond)
+					cur, prevS, prevE, prevLogged := w.q, w.start, w.start, true
+					var last map[string]interface{}
+					for time.Now().Before(stop) {
+						s0 := time.Now()
+						q := m.SendQueue(w.id)
+						e0 := time.Now()
+						atomic.AddInt64(&info.Touches, 1)
+						if end := atomic.LoadInt64(&sweepEnd); end == 0 || us(s0) < end {
+							atomic.AddInt64(&info.Contended, 1)
+						}
+						ev := map[string]interface{}{"ev": "touch", "a": a, "t0": us(s0), "t1": us(e0), "same": q == cur}
+						if q != cur {
+							atomic.AddInt64(&info.Replaced, 1)
+							mu.Lock()
+							if !prevLogged {
+								evs = append(evs, tev{us(prevE), last})
+							}
+							evs = append(evs, tev{us(e0), ev})
+							mu.Unlock()
+							prevLogged = true
+						} else {
+							prevLogged = false
+						}
+						cur, prevS, prevE, last = q, s0, e0, ev
+					}
+					_ = prevS
+					if !prevLogged && last != nil {
+						mu.Lock()
+						evs = append(evs, tev{us(prevE), last})
+						mu.Unlock()
+					}
+				}(j)
+			}
+			rw.Wait()
+			if s, e := atomic.LoadInt64(&sweepStart), atomic.LoadInt64(&sweepEnd); s != 0 && e >= s {
+				info.WindowUs = e - s
+			}
+		}(r)
+	}
+	wg.Wait()
+	sort.SliceStable(evs, func(i, j int) bool { return evs[i].at < evs[j].at })
+	of, err := os.Create(outp)
+	if err != nil {
+		t.Fatal(err)
+	}
+	for _, e := range evs {
+		b, _ := json.Marshal(e.e)
+		of.Write(b)
+		of.Write([]byte("\n"))
+	}
+	of.Close()
+	b, _ := json.Marshal(map[string]interface{}{"timeout_ms": ms, "fillers": F, "watched": W, "rounds": infos})
+	os.WriteFile(outp+".summary", b, 0o644)
+}
